@@ -321,7 +321,8 @@ class Cid(object):
                     field_format.validated(field_format.example)
                 except errors.FieldValueError as error:
                     raise errors.InterfaceError(
-                        "cannot validate example for field %s: %s" % (_compat.text_repr(field_format.field_name), error),
+                        "cannot validate example for field %s: %s"
+                        % (_compat.text_repr(field_format.field_name), error),
                         example_location,
                     )
         _verif.emit_cid("cid_done", self)
